@@ -301,6 +301,23 @@ def _check_guard_table(run, Q, guards, cases, parser, hyp, mod, node,
                                "documented test is `>= 2**n` (bit_length "
                                "> n)" % a[1], where(mod, st))
                         return
+                    if _re.search(r"\bself\s*\[|\bself\._data\b|"
+                                  r"\bself\.(as_integer|pack|"
+                                  r"as_byte_sequence)\b", a[1]):
+                        # the documented illegal inputs are a function of
+                        # key, value and width alone: a guard whose firing
+                        # depends on what the frame holds rejects (or lets
+                        # through) different inputs for different contents
+                        run.ob("R-FRAME-LANES", Q + "#rejects-exactly",
+                               False,
+                               "whether the guard `%s` fires depends on the "
+                               "frame's contents (`%s`): the documented "
+                               "illegal %ss depend on key, value and width "
+                               "only, so some contents let an illegal %s "
+                               "through or reject a legal one" % (
+                                   unparse(st.test, 100), a[1], what, what),
+                               where(mod, st))
+                        return
                     raise AnalysisError(
                         "%s: guard `%s` uses a test outside the recognised "
                         "vocabulary (%s)" % (Q, unparse(st.test, 100), a[1]))
@@ -740,6 +757,21 @@ def _slice_modes(run, world, mod, c):
         for p_ in done:
             d = _path_dnf(P, p_, KEYTESTS)
             final = [v for (t, v) in p_.effects if t == "self._data"]
+            if not final:
+                import re as _re
+                dep = [unparse(t, 120) for (t, b) in p_.conds if _re.search(
+                    r"\bself\s*\[|\bself\._data\b|\bself\.(as_integer|pack|"
+                    r"as_byte_sequence)\b", unparse(t, 400))]
+                if dep:
+                    # "nothing to do" under a test of the contents (the slice
+                    # already holds the value): whether leaving the data alone
+                    # is the documented result is a fact about values, which
+                    # the lane algebra does not decide
+                    raise AnalysisError(
+                        "%s: a slice write completes without a store under "
+                        "a test of the frame's contents (`%s`); the lane "
+                        "algebra cannot decide that the data already is the "
+                        "documented result" % (Q, dep[0]))
             for conj in d:
                 if not pred.sat(conj, hyp + LEGAL_SLICE):
                     continue
